@@ -8,6 +8,7 @@ import PpciVerif.Proofs.Reloc
 import PpciVerif.Proofs.RelocRv2
 import PpciVerif.Proofs.RelocX86
 import PpciVerif.Proofs.RelocThumb
+import PpciVerif.Proofs.RelocArm
 /-!
 # C11 — linked references resolve exactly to their symbols
 
@@ -144,6 +145,24 @@ theorem linked_arm_imm24_partial {secs secs' : List Sec} {syms : List Sym} {r : 
   rw [linkedSite_eq h7 h8]
   simp only [decodeTarget]
   rw [imm24_target h6 hap hfit]
+
+/-- arm `ldr_imm12` (LDR literal): the apply checks `|S - P - 8| < 4096` exactly; needs the U bit and imm12[11:8]
+    clear in the emitted instruction because the relocation ORs into them — full under that assumption -/
+theorem linked_arm_ldr_imm12 {secs secs' : List Sec} {syms : List Sym} {r : RelocEntry}
+    (hty : r.relocType = "ldr_imm12") (hbytes : ∀ s ∈ secs, ∀ x ∈ s.data, x < 256)
+    (h : doRelocation "arm" secs syms r = .ok secs') :
+    ∃ S sec, symbolValue secs syms r.symbolId = .ok S ∧ getSec secs r.sect = some sec ∧
+      (bits (wordLE (slice sec.data r.offset 4)) 8 4 = 0 → bits (wordLE (slice sec.data r.offset 4)) 23 1 = 0 →
+        decodeTarget "arm" "ldr_imm12" (linkedSite secs' r 4) (sec.address + r.offset) = some S) := by
+  obtain ⟨S, sec, out, h1, h2, h4, h6, h7, h8⟩ := site h (n := 4) (by rw [hty]; rfl) (by decide)
+  refine ⟨S, sec, h1, h2, fun hi hu => ?_⟩
+  rw [hty] at h4
+  have hap : Arm.ldrImm12 S (slice sec.data r.offset 4) (sec.address + r.offset) = .ok out := by
+    simpa [Model.Reloc.apply] using h4
+  have hb := bytes_slice (hbytes sec (List.mem_of_find?_eq_some h2)) r.offset 4
+  rw [linkedSite_eq h7 h8]
+  simp only [decodeTarget]
+  rw [ldrImm12_target h6 hb hi hu hap]
 
 /-- thumb `wrap_new11` (B): every successful link resolves exactly — full (halfword-aligned site) -/
 theorem linked_thumb_wrap_new11 {secs secs' : List Sec} {syms : List Sym} {r : RelocEntry}
